@@ -32,7 +32,10 @@ R = Rules(
         "address, which is StopAsyncIteration there -- is converted into a library error by the handlers around that step (C02.l); an "
         "OSError of the socket's sendmsg is dispatched with the remote of the failing datagram whichever way the transport calls "
         "error_received (at once or through the loop, which captures the context) and whichever way the interface records the destination "
-        "(attribute or context variable), and an error reported while nothing is sent names no remote (C02.m).  Completion under "
+        "(attribute or context variable), and an error reported while nothing is sent names no remote (C02.m); the pipe's own statements behind "
+        "add_exception / add_response (live and ended arm; escape analysis, a logging call with a keyword logging does not take counts as "
+        "TypeError; registered callbacks are application code) raise nothing into the reporter, or dispatch_error still fails every other "
+        "request of the remote when one add_exception raises (C02.n).  Completion under "
         "arbitrary loss/duplication/reordering schedules is not decided."
     ),
     rule_text="small-scope evaluation of the token manager's methods against behavioural reference outcomes; ownership over the whole package; exactly-once path rules; normal forms",
@@ -513,10 +516,12 @@ class _DERun:
     pass
 
 
-def _dispatch_error_runs(ctx):
+def _dispatch_error_runs(ctx, raising=None):
     """dispatch_error(exception, remote) on tables with two entries of the reported remote and one of another remote
     each, for an exception that is / is not a NetworkError.  As in the library, failing a request retires its entry
-    (Pipe.add_exception -> on_interest_end callback) and a stopper removes the incoming entry it belongs to."""
+    (Pipe.add_exception -> on_interest_end callback) and a stopper removes the incoming entry it belongs to.
+    raising=<exception class>: the FIRST request that is failed has already ended and its add_exception raises that
+    class into dispatch_error (C02.n), leaving its table entry alone."""
     def build():
         prog = _world_prog(ctx)
         fi = _anchor(ctx, prog, TM + "dispatch_error")
@@ -544,8 +549,13 @@ def _dispatch_error_runs(ctx):
                 exc = kit.Obj("exception", True)
                 r.exc = exc
 
+                r.raised_in = None
+
                 def opaque(it, callee, args, kwargs, node):
                     if callee.attr == "add_exception" and callee.parent is not None:
+                        if raising is not None and r.raised_in is None:
+                            r.raised_in = callee.parent
+                            raise kit.Raised(it.new_exc(raising), node)
                         O.pairs[:] = [p for p in O.pairs if p[1] != callee.parent]
                         return None
                     if callee.parent is None and callee in r.stop_mine + r.stop_foreign:
@@ -560,7 +570,7 @@ def _dispatch_error_runs(ctx):
             for it, r in kit.explore(run):
                 runs.append(r)
         return fi, ne, runs
-    return _cached(ctx, "dispatch_error", build)
+    return _cached(ctx, "dispatch_error" if raising is None else "dispatch_error raising " + raising, build)
 
 
 @R.clause("C02.e", "transport errors are fanned out only to requests of the reported remote, always as NetworkError")
@@ -1287,6 +1297,78 @@ def m(ctx):
         V.emit()
 
 
+# -- reporting an event to a pipe cannot raise in the reporter ----------------------------------------------------------
+
+def _esc_node(prog, e):
+    """The construct an escape originates from: the raise statement / call on the reported line of the reported function."""
+    try:
+        fi = prog.func(e.func)
+    except Exception:
+        return None, None
+    best = None
+    for n in ast.walk(fi.node):
+        if getattr(n, "lineno", None) == e.line and isinstance(n, (ast.Raise, ast.Call)):
+            if isinstance(n, ast.Raise):
+                return fi, n
+            if best is None:
+                best = n
+    return fi, best
+
+
+@R.clause("C02.n", "reporting an event to a pipe (add_response / add_exception, live or already ended) cannot raise in the reporter: every request of the remote is failed by dispatch_error")
+def n(ctx):
+    """TokenManager.dispatch_error fails the requests of a remote one after the other; what reports an event to a
+    request calls Pipe.add_exception / add_response.  If one of those calls raises (found: the ended-pipe arm of
+    _add_event logged with a keyword logging.Logger.error does not take -> TypeError), the exception lands in the
+    reporter and the remaining requests of the remote are never failed.  Decided in two steps: (1) the may-raise set
+    of Pipe.add_exception / add_response over the pipe's OWN statements (escape analysis through _add_event, _end,
+    ...; invoking the registered callbacks is application code and not part of it; a logging call with a keyword
+    outside exc_info / stack_info / stacklevel / extra is an implicit TypeError); (2) for every class that can
+    escape, dispatch_error is run on the C02.e worlds with the first failed request raising that class: the clause
+    holds all the same if every other request of the remote is still failed / stopped (a reporter that isolates its
+    stoppers), otherwise the origin of the escape is reported."""
+    from ..exc import EscapeAnalysis
+    prog = ctx.prog
+    EA = EscapeAnalysis(prog)
+    pq = prog.cls("pipe.Pipe").qn
+    reporters = [("add_exception", prog.func("pipe.Pipe.add_exception")), ("add_response", prog.func("pipe.Pipe.add_response"))]
+    seen = {}
+    for name, fi in reporters:
+        escs = sorted(EA.escapes(fi, selfcls=pq), key=lambda e_: (e_.func, e_.line, e_.cls))
+        if not escs:
+            ctx.ob("Pipe.%s cannot raise into whoever reports the event (the pipe's own statements, live and ended arm)" % name, True, fi, fi.node, construct="def %s" % name,
+                   detail="may-raise set of the pipe's own statements: empty")
+        else:
+            ctx.note("may-raise set of Pipe.%s: %s" % (name, ", ".join("%s at %s:%d" % (e_.cls, e_.func, e_.line) for e_ in escs)))
+        for e_ in escs:
+            seen.setdefault((e_.func, e_.line, e_.cls), (e_, []))[1].append(name)
+    ctx.extra["pipe_event_unresolved_calls"] = sorted({"%s: %s" % u for u in EA.unresolved if u[0].startswith("pipe.")})
+    for (func, line, cls), (e_, names) in sorted(seen.items()):
+        ofi, node = _esc_node(prog, e_)
+        tolerated = False
+        detail = "%s can leave Pipe.%s: %s" % (cls, " / Pipe.".join(names), e_.text)
+        if "add_exception" in names:
+            dfi, _ne, runs = _dispatch_error_runs(ctx, raising=cls)
+            tolerated = True
+            for r in runs:
+                if r.it.choices or r.it.blind:
+                    raise AnalysisError("%s: the evaluated world does not determine the outcome of a raising add_exception" % dfi.short)
+                fails = [x for x in r.it.events if x.kind == "call" and x.callee.attr == "add_exception" and x.callee.parent is not None]
+                stops = [x for x in r.it.events if x.kind == "call" and x.callee.parent is None and x.callee in r.stop_mine]
+                n_out = [sum(1 for x in fails if x.callee.parent == q) for q in r.mine]
+                n_in = [sum(1 for x in stops if x.callee == s_) for s_ in r.stop_mine]
+                if not (all(x >= 1 for x in n_out) and all(x >= 1 for x in n_in)):
+                    tolerated = False
+                    detail += "; world: two outgoing and two incoming requests of the reported remote, %s has already ended and its add_exception raises %s: TokenManager.dispatch_error %s, outgoing requests failed %s times, incoming stoppers invoked %s times -- the others never complete" % (
+                        r.raised_in.name if r.raised_in is not None else "-", cls, "lets it escape" if r.result[0] == "raise" else "returns", n_out, n_in)
+                    break
+        else:
+            detail += "; the response path (TokenManager.process_response) does not isolate the call"
+        if ofi is None or node is None:
+            ofi, node = reporters[0][1], reporters[0][1].node
+        ctx.ob("nothing in the pipe's own event reporting raises into the reporter, or the reporter fails every request of the remote regardless", tolerated, ofi, node, detail=detail)
+
+
 F_TM = "aiocoap/tokenmanager.py"
 R.seed("C02.j", "aiocoap/messagemanager.py", "        self.log.debug(\"Incoming error %s from %r\", error, remote)\n", "        self.log.debug(\"Incoming error %s from %r\", error, remote)\n        if remote not in self._backlogs:\n            return\n", "errors for remotes without an open exchange are dropped: NON requests and observations never fail")
 R.seed("C02.i", "aiocoap/messagemanager.py", "            del self._backlogs[message.remote]\n            self.token_manager.dispatch_error(", "            self.token_manager.dispatch_error(", "stale backlog entry after a timeout: the next request to that remote never completes with a library error")
@@ -1347,3 +1429,8 @@ R.seed("C02.l", F_UDP6, "        except socket.gaierror:\n            raise erro
 R.seed("C02.m", "aiocoap/util/asyncio/recvmsg.py", "            self._protocol.error_received(exc)\n            return\n", "            return\n", "send errors swallowed by the transport")
 R.seed("C02.m", F_UDP6, "        self._remote_being_sent_to.set(message.remote)\n", "", "destination never recorded: every send error is dropped as unattributable")
 R.seed("C02.m", F_UDP6, "        finally:\n            self._remote_being_sent_to.set(None)\n", "        finally:\n            pass\n", "destination never cleared: a later error is attributed to a stale remote")
+F_PIPE = "aiocoap/pipe.py"
+R.seed("C02.n", F_PIPE, "                    exc_info=event.exception,\n", "                    exception=event.exception,\n", "F14 reintroduced: Logger.error() takes no `exception` keyword, TypeError into dispatch_error's loop")
+R.seed("C02.n", F_PIPE, "                    exc_info=event.exception,\n", "                    exc_info=event.exception,\n                    pipe=self,\n", "another keyword logging does not take")
+R.seed("C02.n", F_PIPE, "            return\n\n        for cb, is_interest in self._event_callbacks[:]:\n", "            raise RuntimeError(\"event on a pipe that has ended\")\n\n        for cb, is_interest in self._event_callbacks[:]:\n",
+       "the ended arm raises instead of discarding")
